@@ -270,6 +270,40 @@ theorem dot_rotateUpFrom (g : Geo ℝ) (s : State ℝ) (k : ℕ) (n d : Vec3 ℝ
     simp only [rotateUpFrom, dirAtLevel]
     rw [ih, dot_rotUp]
 
+/-- the rotations above the surface level composed explicitly: `R₀ (R₁ (… R_{k-1} n))`, the
+    daughter-to-parent rotation of level `k-1` applied FIRST and that of level 0 LAST -/
+def normalUp (g : Geo ℝ) (s : State ℝ) (k : ℕ) (n : Vec3 ℝ) : Vec3 ℝ :=
+  (List.range k).foldr (fun j v => (levelTransform g s j).rotUp v) n
+
+theorem rotateUpFrom_eq_normalUp (g : Geo ℝ) (s : State ℝ) (k : ℕ) (n : Vec3 ℝ) :
+    rotateUpFrom g s k n = normalUp g s k n := by
+  induction k generalizing n with
+  | zero => rfl
+  | succ k ih =>
+    show rotateUpFrom g s k ((levelTransform g s k).rotUp n) = _
+    rw [ih]
+    unfold normalUp
+    rw [List.range_succ, List.foldr_append]
+    rfl
+
+/-- the REVERSED composition `R_{k-1} (… R₁ (R₀ n))` (levels visited in ascending order: what a
+    rotate-up loop without `.step(-1)` computes) -/
+def normalUpAscending (g : Geo ℝ) (s : State ℝ) (k : ℕ) (n : Vec3 ℝ) : Vec3 ℝ :=
+  (List.range k).foldl (fun v j => (levelTransform g s j).rotUp v) n
+
+/-- `set_dir`'s flag with the rotations composed in the reversed order -/
+def setDirFlipsAscending (g : Geo ℝ) (s : State ℝ) (newdir : Vec3 ℝ) (sl : ℕ) : Bool :=
+  let normal := normalUpAscending g s sl (localNormal g s sl)
+  let old := (s.lev 0).dir
+  (Num.ge (Vec3.dot normal newdir) (Num.ofNat 0)) != (Num.ge (Vec3.dot normal old) (Num.ofNat 0))
+
+/-- `set_dir`'s flag with the normal evaluated at the GLOBAL position instead of the local
+    position of the surface level -/
+def setDirFlipsGlobalPos (g : Geo ℝ) (s : State ℝ) (newdir : Vec3 ℝ) (sl : ℕ) : Bool :=
+  let normal := rotateUpFrom g s sl (g.normal (s.lev sl).uid (s.lev 0).pos (s.surf.getD 0))
+  let old := (s.lev 0).dir
+  (Num.ge (Vec3.dot normal newdir) (Num.ofNat 0)) != (Num.ge (Vec3.dot normal old) (Num.ofNat 0))
+
 /-! ### single-level ray trace vs point location (events with parity semantics) -/
 
 /-- `firstExit` also returning the sense vector after the exit and the remaining events -/
